@@ -162,9 +162,12 @@ def run_property(mod, tier, seed, max_seconds=None, replay=None):
             agg['first'] = sample
         if not res.get('skipped'):
             agg['last'] = sample
-        if d is not None and d >= agg['dev'] and not res.get('skipped'):
-            agg['dev'] = float(d)
-            agg['worst'] = sample
+        if d is not None and not res.get('skipped'):
+            if res['viol']:
+                agg['vdev'] = max(agg.get('vdev', 0.0), float(d))     # violating (new or listed) cases are reported separately
+            elif d >= agg['dev']:
+                agg['dev'] = float(d)
+                agg['worst'] = sample
         dg = None
         for sig, msg in res['viol']:
             # a violation is a listed finding if its signature or its case is listed; decided per violating case,
@@ -262,7 +265,7 @@ def run_property(mod, tier, seed, max_seconds=None, replay=None):
                 distinct_outcomes=len(agg['outcomes']),
                 outcomes=dict(sorted(agg['outcomes'].items(), key=lambda x: -x[1])[:40]),
                 skipped_out_of_domain=agg['skipped'],
-                max_deviation_seen=agg['dev'],
+                max_deviation_seen=agg['dev'], max_deviation_in_violating_cases=agg.get('vdev'),
                 tolerance=getattr(mod, 'TOLERANCE', None),
                 exhaustive=(not capped), capped_after_s=(cap if capped else None),
                 bounds=bounds, workers=NPROC,
